@@ -210,6 +210,11 @@ def _are_sets_equal(x, y, _exact_strings, _delta):
     for x_element in x:
         if not _set_contains(x_element, y, _exact_strings, _delta):
             return False
+    # Two elements of x may be within the tolerance of the same element of y,
+    # so every element of y has to have a counterpart as well
+    for y_element in y:
+        if not _set_contains(y_element, x, _exact_strings, _delta):
+            return False
     return True
 
 
